@@ -170,7 +170,7 @@ pub fn child_main(job_path: &str) -> i32 {
 pub fn run_follow(ctx: &Ctx, job: &FollowJob) -> Result<FollowOut, String> {
     let job_path = ctx.file("follow-job.json");
     std::fs::write(&job_path, serde_json::to_string(job).map_err(|e| e.to_string())?).map_err(|e| e.to_string())?;
-    let exe = std::env::current_exe().map_err(|e| e.to_string())?;
+    let exe = crate::run::child_exe();
     let output = std::process::Command::new(exe).arg("--follow-child").arg(&job_path).output().map_err(|e| e.to_string())?;
     let stdout = String::from_utf8_lossy(&output.stdout).to_string();
     if !output.status.success() {
